@@ -1,6 +1,7 @@
 import TTProofs.Props.C12
 import TTProofs.Lemmas.C12_CoalInstances
 import TTProofs.Lemmas.C12_SoftDeriv
+import TTProofs.Lemmas.C12_LinDeriv
 /-!
 # C12 (companion) — gradients of the C08 / C20 models that `Props/C12.lean` did not cover
 
@@ -401,5 +402,129 @@ example : HasDerivAt (fun t => C08.softLogProb ((1 : ℝ) / 2) (([1, 2, 4] : Lis
     (softGradTheta ((1 : ℝ) / 2) [1, 2, 4] [1, 3] [0, 0, 1, 2, 3] 1) (([1, 2, 4] : List ℝ)[1]) :=
   hasDerivAt_softLogProb_theta ((1 : ℝ) / 2) [1, 2, 4] [1, 3] [0, 0, 1, 2, 3] 1 (by simp) rfl
     (by intro b hb; simp at hb; rcases hb with rfl | rfl | rfl <;> norm_num)
+
+/-! ## piecewise-linear coalescent (`PiecewiseLinearCoalescentGrid`, model `TT.C08.linearLogProb`) in `θ` -/
+
+/-- closed form of `∂/∂θ_k`: the sizes attached to the sorted positions are linear in `θ`, so their `θ_k`-derivatives are
+the same sizes computed from the unit vector `e_k`; each interval contributes `C08.dPiece`, each coalescent mark
+`p'/p` -/
+noncomputable def linGradTheta (θ grid heights : List ℝ) (k : ℕ) : ℝ :=
+  -(List.zipWith (fun k q => (C08.choose2 k : ℝ) * q) (C08.lineages (C08.linearSorted heights grid)).tail
+      (C08.dPieces (C08.times (C08.linearSorted heights grid)).tail
+        (C08.popSizes θ grid (C08.linearSorted heights grid)).tail
+        (C08.popSizes (C08.unitVec θ.length k) grid (C08.linearSorted heights grid)).tail)).sum
+    - (((C08.linearSorted heights grid).zip
+          (C08.cumsum (C08.isMark 0 (C08.marks (C08.linearSorted heights grid))))).map fun z =>
+        if z.1.mark = -1 then C08.popEntry (C08.unitVec θ.length k) grid z / C08.popEntry θ grid z else 0).sum
+
+/-- **Piecewise-linear coalescent, derivative in each `θ_k`** — every input order and tie pattern of the heights
+(nothing is sorted by `θ`); all sizes at the sorted positions positive (true whenever every `θ_j > 0`:
+`C08.popSizes_eq_linN`, `C08.lin_pos`); every two consecutive sizes either differ at the point or coincide identically
+in `θ_k` (tied events, events beyond the last knot) — an accidental equality `θ_i = θ_{i+1}` is the excluded set, where
+the code switches formula. -/
+theorem hasDerivAt_linearLogProb_theta (θ grid heights : List ℝ) (k : ℕ) (hk : k < θ.length)
+    (hposP : ∀ p ∈ C08.popSizes θ grid (C08.linearSorted heights grid), 0 < p)
+    (hH : C08.FlatOrDistinct θ[k]
+      ((((C08.linearSorted heights grid).zip
+          (C08.cumsum (C08.isMark 0 (C08.marks (C08.linearSorted heights grid))))).map
+        fun z => fun t => C08.popEntry (θ.set k t) grid z).tail)) :
+    HasDerivAt (fun t => C08.linearLogProb (θ.set k t) grid heights) (linGradTheta θ grid heights k) θ[k] := by
+  set S := C08.linearSorted heights grid with hS
+  set Z := S.zip (C08.cumsum (C08.isMark 0 (C08.marks S))) with hZ
+  have hset : θ.set k θ[k] = θ := List.set_getElem_self hk
+  have hpop : ∀ θ' : List ℝ, C08.popSizes θ' grid S = Z.map (C08.popEntry θ' grid) := fun θ' =>
+    C08.popSizes_eq_map θ' grid S
+  have hZfst : Z.map Prod.fst = S := by
+    rw [hZ]
+    apply List.map_fst_zip
+    unfold C08.cumsum
+    rw [C08.length_cumsumFrom']
+    simp [C08.isMark, C08.marks]
+  -- interval part
+  have hI : HasDerivAt (fun t => C08.linearIntegral (θ.set k t) grid S)
+      (List.zipWith (fun k q => (C08.choose2 k : ℝ) * q) (C08.lineages S).tail
+        (C08.dPieces (C08.times S).tail (C08.popSizes θ grid S).tail
+          (C08.popSizes (C08.unitVec θ.length k) grid S).tail)).sum θ[k] := by
+    have h := C08.hasDerivAt_pieces_sum θ[k] (C08.lineages S).tail (C08.times S).tail
+      ((Z.map fun z => fun t => C08.popEntry (θ.set k t) grid z).tail)
+      ((Z.map (C08.popEntry (C08.unitVec θ.length k) grid)).tail)
+      (by simp)
+      (fun j hj hj' => by
+        simp only [← List.map_tail, List.getElem_map]
+        exact C08.hasDerivAt_popEntry_set θ grid _ k θ[k] hk)
+      (fun p hp => by
+        have hp' := List.mem_of_mem_tail hp
+        obtain ⟨z, hz, rfl⟩ := List.mem_map.mp hp'
+        show 0 < C08.popEntry (θ.set k θ[k]) grid z
+        rw [hset]
+        exact hposP _ (by rw [hpop]; exact List.mem_map_of_mem hz))
+      hH
+    have hfun : (fun t => C08.linearIntegral (θ.set k t) grid S)
+        = fun t => (List.zipWith (fun k q => (C08.choose2 k : ℝ) * q) (C08.lineages S).tail
+            (C08.pieces (C08.times S).tail
+              (((Z.map fun z => fun t => C08.popEntry (θ.set k t) grid z).tail).map fun p => p t))).sum := by
+      funext t
+      unfold C08.linearIntegral
+      rw [hpop, ← List.map_tail, ← List.map_tail, List.map_map]
+      rfl
+    rw [hfun]
+    have hval : ((Z.map fun z => fun t => C08.popEntry (θ.set k t) grid z).tail).map (fun p => p θ[k])
+        = (C08.popSizes θ grid S).tail := by
+      rw [hpop, ← List.map_tail, ← List.map_tail, List.map_map]
+      apply List.map_congr_left
+      intro z _
+      show C08.popEntry (θ.set k θ[k]) grid z = _
+      rw [hset]
+    rw [hval, ← hpop] at h
+    exact h
+  -- log terms
+  have hL : HasDerivAt (fun t => C08.linearLogs (θ.set k t) grid S)
+      (Z.map fun z => if z.1.mark = -1 then C08.popEntry (C08.unitVec θ.length k) grid z / C08.popEntry θ grid z
+        else 0).sum θ[k] := by
+    have hfun : (fun t => C08.linearLogs (θ.set k t) grid S)
+        = fun t => (Z.map fun z => if z.1.mark = -1 then Real.log (C08.popEntry (θ.set k t) grid z) else 0).sum := by
+      funext t
+      unfold C08.linearLogs
+      simp only [trans_log_real]
+      rw [hpop]
+      conv_lhs => rw [← hZfst]
+      rw [List.zipWith_map_left, List.zipWith_map_right, List.zipWith_self]
+    rw [hfun]
+    apply C08.hasDerivAt_list_sum
+      (fun z t => if z.1.mark = -1 then Real.log (C08.popEntry (θ.set k t) grid z) else 0)
+    intro z hz
+    by_cases hm : z.1.mark = -1
+    · simp only [hm, if_true]
+      have hp : 0 < C08.popEntry (θ.set k θ[k]) grid z := by
+        rw [hset]; exact hposP _ (by rw [hpop]; exact List.mem_map_of_mem hz)
+      have h := (C08.hasDerivAt_popEntry_set θ grid z k θ[k] hk).log hp.ne'
+      rw [hset] at h
+      exact h
+    · simp only [hm, if_false]
+      exact hasDerivAt_const _ _
+  have h := hI.neg.sub hL
+  unfold linGradTheta C08.linearLogProb
+  exact h
+
+/-- the sorted events of the instance below: samples 0, 0 (one unique time, multiplicity 2), coalescence at 1, one grid
+point at 2 (beyond the root); the sentinel sits at 0 -/
+theorem linear_sorted_example :
+    C08.linearSorted ([0, 0, 1] : List ℝ) [2] = [⟨0, 0⟩, ⟨0, 2⟩, ⟨1, -1⟩, ⟨2, 0⟩] := by
+  simp [C08.linearSorted, C08.linearEvents, C08.zeroHead, C08.sortEvents, C08.uniqueCounts, C08.insertCount,
+    C08.taxaCount]
+  norm_num [C08.insertEv]
+
+/-- the hypotheses are met: `θ = (1, 3)`, sizes at the sorted positions `1, 1, 2, 3` (consecutive ones after the sentinel
+distinct), derivative in `θ₀` -/
+example : HasDerivAt (fun t => C08.linearLogProb (([1, 3] : List ℝ).set 0 t) [2] [0, 0, 1])
+    (linGradTheta [1, 3] [2] [0, 0, 1] 0) (([1, 3] : List ℝ)[0]) := by
+  apply hasDerivAt_linearLogProb_theta [1, 3] [2] [0, 0, 1] 0 (by simp)
+  · rw [linear_sorted_example]
+    intro p hp
+    simp [C08.popSizes, C08.cumsum, C08.cumsumFrom, C08.isMark, C08.marks, C08.interp, C08.bucket] at hp
+    rcases hp with rfl | rfl | rfl | rfl <;> norm_num
+  · rw [linear_sorted_example]
+    simp [C08.FlatOrDistinct, C08.cumsum, C08.cumsumFrom, C08.isMark, C08.marks, C08.popEntry, C08.interp, C08.bucket]
+    norm_num
 
 end TTProps.C12_Coalescent
